@@ -72,3 +72,17 @@ Proof.
     + destruct (p_digit opatch) as [d1|], (p_digit spatch) as [d2|]; cbn [negb andb]; cbv iota beta; rewrite src_three_way; reflexivity.
     + rewrite src_three_way. reflexivity.
 Qed.
+
+(* ... and with the two statements before it: the comparison of the version texts decides first, the patch level only breaks a tie *)
+Lemma src_compare_tail_unfold : forall vc prod s o a b c d,
+  src_compare_tail vc prod s o a b c d = if negb (vc =? 0)%Z then vc else src_patch_cmp prod s o a b c d.
+Proof. reflexivity. Qed.
+Lemma tie_compare_tail : forall prod sver spatch other,
+  compare_version prod sver spatch other =
+  let (oversion, opatch) := split_other other in
+  src_compare_tail (compare_versions sver oversion) prod (or_empty spatch) opatch
+                   (is_test opatch) (is_test (or_empty spatch)) (p_digit opatch) (p_digit (or_empty spatch)).
+Proof.
+  intros prod sver spatch other. unfold compare_version. destruct (split_other other) as [oversion opatch].
+  rewrite src_compare_tail_unfold, <- tie_patch_cmp. destruct (compare_versions sver oversion =? 0)%Z; reflexivity.
+Qed.
